@@ -56,8 +56,54 @@ def build_get(i, init=False):
     return {'env': env, 'old_env': dict(env), 'call': call}
 
 
+def build_create_period(i):
+    import logging
+    EPOCH = datetime.datetime(1970, 1, 1, tzinfo=datetime.timezone.utc)
+    g = lambda k: int(i[k])
+    seen = {}
+    if abs(g('ast_us')) > 10**17:
+        raise ValueError('instant out of range for a native datetime')
+    timing = NS(availabilityStartTime=EPOCH + datetime.timedelta(microseconds=g('ast_us')), timeShiftBufferDepth=g('depth'))
+    opts = NS(abr=True, mode='live', encrypted=False, segmentTimeline=False, useBaseUrls=True,
+              availabilityStartTime='epoch', timeShiftBufferDepth=g('opt_depth'))
+
+    def adp(kind):
+        a = NS(content_type=kind, lang='und', encrypted=False, got_params=None, event_streams=[])
+        a.append_cgi_params = lambda p: setattr(a, 'got_params', p)
+        return a
+
+    def cgi(audio=None, video=None):
+        seen.update(ast=opts.availabilityStartTime, depth=opts.timeShiftBufferDepth)
+        return NS(video={'k': 'video'}, audio={'k': 'audio'}, text={'k': 'text'}, manifest={}, patch={}, time={})
+    me = NS(options=opts, cgi_params=None, locationURL=None,
+            calculate_video_adaptation_set=lambda stream, max_items=None: adp('video'),
+            calculate_audio_adaptation_sets=lambda stream: [adp('audio'), adp('audio')],
+            calculate_text_adaptation_sets=lambda stream, lang: [adp('text')],
+            update_timing=lambda t: None, calculate_cgi_parameters=cgi)
+
+    class Period(NS):
+        def __init__(self, **kw):
+            super().__init__(adaptationSets=[], event_streams=[], baseURL='http://x/', **kw)
+
+        def finish_setup(self, **kw):
+            pass
+    fl = NS(url_for=lambda *a, **k: '/base/', request=NS(url='http://x/m.mpd'))
+    fn = extract_method(MCX, 'ManifestContext', 'create_period', {
+        'flask': fl, 'logging': logging, 'Period': Period, 'AdaptationSet': object, 'EventFactory': NS(create_event_generators=lambda o: []),
+        'is_https_request': lambda: False, 'objects': NS(dict_to_cgi_params=lambda d: ''), 'models': NS(Stream=object, Period=object, Key=object),
+        'DrmContext': object, 'KeyMaterial': object, 'Set': set})
+    us = lambda dt: (dt - EPOCH) // datetime.timedelta(microseconds=1) if isinstance(dt, datetime.datetime) else -1
+    env = {'ast_us': g('ast_us'), 'depth': g('depth'), 'opt_depth': g('opt_depth'), 'self': me, 'micros': us,
+           'params_of': lambda period, k, kind: len(period.adaptationSets) > k and period.adaptationSets[k].got_params == {'k': kind}
+           and period.adaptationSets[k].content_type == kind}
+    return {'env': env, 'old_env': dict(env), 'call': lambda: fn(me, NS(directory='d'), timing, None),
+            'post_env': lambda: {'ast_at_url_time': seen.get('ast'), 'depth_at_url_time': seen.get('depth')}}
+
+
 def build(key, variant, i):
     qual = key.split(':')[1]
+    if qual == 'ManifestContext.create_period':
+        return build_create_period(i)
     if qual == 'ServeMpsMedia.get':
         return build_get(i)
     if qual == 'ServeMpsInitSeg.get':
